@@ -23,7 +23,7 @@ RULE = (
     "mixed-class links, link order diversified by end re-assignments) x filters drawn as truth tables over "
     "(link index, vertex index).  Cases run with neighbor caching off or on (then the 9 settings are queried back to back in a generated order).  For every vertex x 3 directions x 3 unknown-handling modes the result (as an "
     "index list, order and multiplicity significant) must equal the reference decision table, "
-    "NotImplementedError exactly when the reference raises; plus the FORWARD/BACKWARD multiplicity duality for "
+    "NotImplementedError exactly when the reference raises; the whole table is evaluated a second time on a copy (deepcopy / pickle / nrpickler) of the already-queried graph; plus the FORWARD/BACKWARD multiplicity duality for "
     "no filter and edge-only filters.  Non-trivial = some vertex has >= 2 links of >= 2 kinds, or a self-loop, or "
     "parallel links, or the filter rejects some and accepts some of that vertex's links; distinct = distinct case value."
 )
@@ -96,9 +96,20 @@ def check_case(case):
 
 
 def _check_case(case):
+    vs, ls = graphs.build(case["g"])
+    info = _check_world(case, vs, ls)
+    if not case["g"].get("eq"):
+        # the same table on a COPY of the world made after it was queried (deepcopy / pickle / nrpickler):
+        # "for every graph" includes graphs that came out of a pickle
+        vs2, ls2, _ = graphs.copied(vs, ls, None, case.get("order", 0))
+        _check_world(case, vs2, ls2)
+        info["classes"].append("re-checked-on-copy-of-queried-graph")
+    return info
+
+
+def _check_world(case, vs, ls):
     import itertools
 
-    vs, ls = graphs.build(case["g"])
     G = graphs.abstract(vs, ls)
     vi = {id(v): i for i, v in enumerate(vs)}
     li = {id(l): i for i, l in enumerate(ls)}
